@@ -107,11 +107,12 @@ theorem check_hashagg_ok (ks as c : Tm) (h : check (.node .hashagg [ks, as, c]) 
   obtain ⟨r3, hr3, _⟩ := resolvesAll_ok _ _ _ h3
   exact ⟨h1, ⟨r2, hr2⟩, ⟨r3, hr3⟩⟩
 
-/-- An accepted nested-loop join is inner, left-outer, semi or anti (the only kinds the executor
-implements), both inputs are accepted and the condition resolves over the two schemas. -/
+/-- An accepted nested-loop join has a join type the executor implements (every one of the six
+since `fix:` 7d07810; an unknown type atom is rejected), both inputs are accepted and the
+condition resolves over the two schemas. -/
 theorem check_join_ok (t on l r : Tm) (h : check (.node .join [t, on, l, r]) = .ok) :
     check l = .ok ∧ check r = .ok ∧ (∃ x, resolve (schema l ++ schema r) on = some x) ∧
-      (joinType? t = some .inner ∨ joinType? t = some .leftOuter ∨ joinType? t = some .semi ∨ joinType? t = some .anti) := by
+      (∃ jt, joinType? t = some jt) := by
   simp only [check] at h
   cases ht : joinType? t with
   | none =>
@@ -119,13 +120,10 @@ theorem check_join_ok (t on l r : Tm) (h : check (.node .join [t, on, l, r]) = .
     have := (Verdict.and_ok _ _ h).2; cases this
   | some jt =>
     simp only [ht] at h
-    cases jt <;> simp only at h
-    all_goals first
-      | (have := (Verdict.and_ok _ _ h).2; cases this)
-      | (obtain ⟨h12, h3⟩ := Verdict.and_ok _ _ h
-         obtain ⟨h1, h2⟩ := Verdict.and_ok _ _ h12
-         obtain ⟨x, hx, _⟩ := resolvesAll_ok _ _ _ h3
-         exact ⟨h1, h2, ⟨x, hx⟩, by simp⟩)
+    obtain ⟨h12, h3⟩ := Verdict.and_ok _ _ h
+    obtain ⟨h1, h2⟩ := Verdict.and_ok _ _ h12
+    obtain ⟨x, hx, _⟩ := resolvesAll_ok _ _ _ h3
+    exact ⟨h1, h2, ⟨x, hx⟩, ⟨jt, rfl⟩⟩
 
 /-- An accepted hash join with an outer/inner type has residual condition `true`. -/
 theorem check_hashjoin_residual (t cond lk rk l r : Tm) (jt : JT) (ht : joinType? t = some jt)
